@@ -86,3 +86,18 @@ b
 b
 ") /\ dir_in_scope m (fun _ => false) [(txt "*.sh", FShell)] d = true.
 Proof. vm_compute. repeat split; reflexivity. Qed.
+
+From CRS Require Import Model.ConvFds Proofs.ConvFdsProofs.
+(** Descriptors: each eligible file is opened and closed inside its own function
+    literal, so however many files a directory holds at most one is open at any
+    time and the conversion fits under any descriptor limit that leaves room for
+    one more file; closing only when the whole directory is done ([leaky_trace],
+    `defer` in the loop body) keeps them all open and fails for a big enough
+    directory.  Tie: directories of 130 / 180 eligible files are converted under
+    RLIMIT_NOFILE = 96 on every run and must give the model's output. *)
+Theorem c17_one_descriptor_at_a_time : forall n, (peak (dir_trace n) <= 1)%nat.
+Proof. exact dir_peak. Qed.
+Theorem c17_fits_any_limit : forall held limit n, (held + 1 < limit)%nat -> fits held limit (dir_trace n) = true.
+Proof. exact dir_fits. Qed.
+Theorem c17_close_at_end_refuted : forall limit, exists n, fits 0%nat limit (leaky_trace n) = false.
+Proof. exact leaky_refuted. Qed.
